@@ -17,7 +17,7 @@ FIXES=[('659fa0e',['C17','C03','C05']),('d9b4edd',['C06','C01']),('8e362d8',['C1
  ('d074582',['C05']),('4dbe7f4',['C03']),('ff68d64',['C16','C20']),('739e5da',['C20','C14']),('fbd49ff',['C20','C14']),
  ('b6aac37',['C16']),('7524623',['C08']),('743ce43',['C15','C20']),('d247afc',['C20']),('2f0bb4d',['C15','C20']),
  ('53bf577',['C20']),('c70c12b',['C07']),('3c0b511',['C10']),('9016315',['C07','C20','C02']),('4ba9f80',['C11','C20']),
- ('2ba22ea',['C20']),('e54c65e',['C02','C20']),('eced17a',['C11','C09']),('b877043',['C07','C10']),('7c7d223',['C15','C20'])]
+ ('2ba22ea',['C20']),('e54c65e',['C02','C20']),('eced17a',['C11','C09']),('b877043',['C07','C10']),('7c7d223',['C15','C20']),('0b0e65d',['C20']),('1035f39',['C20'])]
 def sh(cmd, cwd=None, inp=None):
     return subprocess.run(cmd, shell=True, cwd=cwd, env=ENV, capture_output=True, text=True, input=inp)
 def run_variant(name, diff_text, reverse=False):
